@@ -19,10 +19,11 @@ class Opaque:
     """Result of something the interpreter does not model.  Propagates; fatal only if an
     obligation depends on it."""
 
-    __slots__ = ("reason",)
+    __slots__ = ("reason", "src")
 
-    def __init__(self, reason):
+    def __init__(self, reason, src=None):
         self.reason = reason
+        self.src = src        # the symbolic value an opaque integer was converted from (int() of a data-dependent value)
 
     def __repr__(self):
         return f"Opaque({self.reason})"
